@@ -1,3 +1,4 @@
+import io
 import os
 import pathlib
 from contextlib import contextmanager
@@ -82,7 +83,7 @@ class _StringSourceContentsOfConstStrAndExistingPath(StringSourceContents):
     @contextmanager
     def as_lines(self) -> ContextManager[Iterator[str]]:
         if self._contents_as_lines is None:
-            self._contents_as_lines = self._contents_as_str.splitlines(keepends=True)
+            self._contents_as_lines = io.StringIO(self._contents_as_str).readlines()
 
         yield iter(self._contents_as_lines)
 
